@@ -6,6 +6,7 @@ import SV.GenProofs.Immunity
 import SV.Immunity.CacheProofs
 import SV.GenProofs.Config
 import SV.Immunity.FifoSpec
+import SV.Immunity.ChunkLib
 namespace SV.Props.C13
 open SV SV.Immunity
 
@@ -111,5 +112,17 @@ theorem fifo_eviction_in_batches (cfg : ChunkCfg) {q q' : Q} (h : q.Wf) (he : q.
         (q.without (q.evictable.take (i * cfg.numToEvict))).full cfg = true) ∧
       (j * cfg.numToEvict ≤ q.evictable.length → q'.full cfg = false) ∧
       q'.count + min (j * cfg.numToEvict) q.evictable.length = q.count := q_batches cfg h he
+
+/-! ### the chunk's two structures are not assumed coherent (SV/Immunity/ChunkLib.lean): the `items` map (key ↦ list element)
+    and the `itemsAsList` linked list transcribed separately, every lookup going through the map to the element -/
+/-- for every configuration and every history the faithful two-structure chunk returns what the one-list model returns, ends in
+    the corresponding state, and its map and list are coherent (same keys, no dangling entry) -/
+theorem two_structure_chunk_refines_the_model (cfg : ChunkCfg) (ops : List Lib.Op) :
+    Lib.trace (Lib.LChunk.step cfg) Lib.LChunk.empty ops = Lib.trace (Lib.handStep cfg) Chunk.empty ops ∧
+    (Lib.finalState (Lib.LChunk.step cfg) Lib.LChunk.empty ops).abs = Lib.finalState (Lib.handStep cfg) Chunk.empty ops ∧
+    Lib.Coh (Lib.finalState (Lib.LChunk.step cfg) Lib.LChunk.empty ops) := Lib.lib_chunk_refines_model cfg ops
+/-- `Count()` (the size of the MAP, as the code computes it) never exceeds the chunk's item limit, after any history -/
+theorem map_count_never_exceeds_max (cfg : ChunkCfg) (ops : List Lib.Op) :
+    (Lib.finalState (Lib.LChunk.step cfg) Lib.LChunk.empty ops).count ≤ cfg.maxNumItems := Lib.lib_count_le_max cfg ops
 
 end SV.Props.C13
